@@ -93,7 +93,7 @@ def evaluate(e, env):
                 fc_, vc_ = _class_constant(e.attr, env, cn_)
                 if fc_: return vc_
             if e.attr != "__dict__" and e.attr != "__class__": raise Raised("AttributeError")
-        if isinstance(base, Inst) and e.attr == "__dict__": return {k_[1:]: v_ for k_, v_ in base.items() if k_.startswith(".") and not k_.startswith(".__")}
+        if isinstance(base, dict) and e.attr == "__dict__" and (isinstance(base, Inst) or any(isinstance(k_, str) and k_.startswith(".") for k_ in base)): return _AttrDict(base)
         if isinstance(base, Inst) and e.attr == "__class__": return {".__name__": base[".__cls__"], ".kind": "cls"}
         if isinstance(base, (dict, ClassRef)) and not isinstance(base, Inst):
             f_, v_ = _class_constant(e.attr, env, base.name if isinstance(base, ClassRef) else None)
@@ -498,6 +498,24 @@ class Trusted:
     names of its base classes, so that handlers of the evaluated code catch it as they would at run time."""
     def __init__(s, obj, names): s.obj, s.names = obj, set(names)
 import itertools as _it
+class _AttrDict(dict):
+    """obj.__dict__ of a sample object: the attributes by name; stores and deletions go through to the object"""
+    def __init__(s, o):
+        dict.__init__(s, {k_[1:]: v_ for k_, v_ in o.items() if isinstance(k_, str) and k_.startswith(".") and not k_.startswith(".__") and k_ != ".kind"}); s._o = o
+    def __setitem__(s, k, v): dict.__setitem__(s, k, v); s._o["." + k] = v
+    def __delitem__(s, k): dict.__delitem__(s, k); del s._o["." + k]
+    def setdefault(s, k, d=None):
+        if k not in s: s[k] = d
+        return s[k]
+    def update(s, *a, **k):
+        for k_, v_ in dict(*a, **k).items(): s[k_] = v_
+    def pop(s, k, *d):
+        if k in s:
+            v_ = dict.pop(s, k); del s._o["." + k]; return v_
+        if d: return d[0]
+        raise KeyError(k)
+    def clear(s):
+        for k_ in list(s): del s[k_]
 class _Sentinel:
     """the value of object(): equal to nothing but itself"""
     __slots__ = ()
